@@ -55,6 +55,15 @@ func (i *rwInterceptor) WriteHeader(statusCode int) {
 		return
 	}
 
+	// Informational responses (1xx other than 101 Switching Protocols) do not
+	// conclude the response: net/http sends them right away and the handler
+	// still has to provide the final status code. Forward them untouched and
+	// keep waiting for the final WriteHeader call.
+	if statusCode >= 100 && statusCode <= 199 && statusCode != http.StatusSwitchingProtocols {
+		i.w.WriteHeader(statusCode)
+		return
+	}
+
 	i.wroteHeader = true
 
 	for k, vv := range i.w.Header() {
